@@ -26,7 +26,7 @@ m = {
  "not_applicable": [{"property_id": k, "reason": v} for k, v in sorted(NOT_APPLICABLE.items())],
  "notes": "All claims are at level 'other': structural necessary conditions of each property decided for every CFG path / call site / table member of the current tree; the behavioural remainder is listed per check in level_note and in evidence.coverage.not_decided. See DESIGN.md.",
 }
-COMMON = (" Every check also carries rule R<n>.0 over the functions its own rules resolve as anchors: once the error of a step was tested non-nil, a nil-error return reachable only through that failure must lie behind a benign-error predicate of that error (IsConflict, IsNotFound, …) — a failed step of the mechanism is never turned into success (DESIGN.md §18.3)."
+COMMON = (" Every check also carries rule R<n>.0 over the functions its own rules resolve as anchors: once the error of a step was tested non-nil, a nil-error return reachable only through that failure must lie behind a benign-error predicate of that error (IsConflict, IsNotFound, …) — a failed step of the mechanism is never turned into success (DESIGN.md §18.3); since round 5 the rule also covers what those functions call inside crossplane two levels down (static callees and the crossplane implementations of invoked interface methods), requires that the non-scalar results of a step are used only where its error is known to be nil (or handed back together with it), and that an error which is only compared with nil is not followed by a success return (DESIGN.md §21)."
           " The tree is first put into a normal form, source to source and meaning-preserving, the tree itself untouched (DESIGN.md §14.1, §18.1): helpers the reference list does not know (also generic ones, local closures, methods reached through method-value locals) are inlined into their callers, loops over local literal tables are written out row by row, reads of immutable package-level lookup tables become key comparisons, local structs that are only used field by field become one local per field; a stage whose output does not type-check is discarded. "
           "Every reachability query is path-sensitive in the small sense of DESIGN.md §14.2/§18.2 (constant flags, nil-ness of result temporaries, re-tested values, pure error predicates, phis refined by feasibility), "
           "so that the verdict does not depend on how the code is split into functions, tables or carrier structs, or how a condition is spelled.")
@@ -46,9 +46,26 @@ ADDENDA = {
  "C18": " Round 3: (R18.8) the validator returns a verdict only beyond the unfiltered success edge of reading the allow-list ClusterRole; binding subjects are compared with a symmetric whole-value equality.",
  "C19": " Round 3: a refused delete returns without recording the attempt only over an equality of the recorded value with this attempt's policy.",
 }
+ADDENDA5 = {
+ "C01": " Round 5: the stamp itself (SetCompositionResourceName) writes the supplied name on every path.",
+ "C02": " Round 5: (R2.9) the field manager name of composed resources hashes the XR's name and API group.",
+ "C03": " Round 5: no success return of the garbage collector precedes the scan of observed unless observed is empty; R3.0 reaches the function runners behind the FunctionRunner interface.",
+ "C04": " Round 5: (R4.7) observed connection details are read from the namespace/name the resource's own secret reference gives.",
+ "C05": " Round 5: (R5.8) default readiness is the conjunction of the readiness checks.",
+ "C06": " Round 5: (R6.6) the name generator hands out a name only on the IsNotFound edge of its probe.",
+ "C07": " Round 5: after an XR-owned value was put on the claim no success return is reached without a successful client.Update of the claim.",
+ "C08": " Round 5: (R8.7/R8.8) the XR is written only after the claim durably carries its reference.",
+ "C12": " Round 5: (R12.6) every success return lies behind the List of the stored revisions.",
+ "C14": " Round 5: (R14.6) revisions are written with the patching applicator (resourceVersion of the listed copy).",
+ "C15": " Round 5: (R15.8) the converters of older package metadata assign every shared field.",
+ "C16": " Round 5: the parent-package label written on a revision is the package's name itself.",
+ "C17": " Round 5: the versions scanned are the result of fetcher.Tags made in the same call.",
+ "C18": " Round 5: the allow tree consulted is built in the same call from the ClusterRole read in that call.",
+ "C20": " Round 5: (R20.6) the index key is derived from the parsed reference's own Identifier()/Context().",
+}
 for pid in sorted(CHECKS):
     c = dict(CHECKS[pid])
-    c["text"] = c["text"] + ADDENDA.get(pid, "") + COMMON
+    c["text"] = c["text"] + ADDENDA.get(pid, "") + ADDENDA5.get(pid, "") + COMMON
     c["technique"] = c["technique"] + "; path-sensitive gate-crossing search over the inlined normal form"
     m["checks"].append({
      "property_id": pid,
